@@ -243,7 +243,7 @@ func c01(c *Ctx) (*report.Result, error) {
 		}
 	}
 	if f := resolve(c, res, "O1.2", anchor{"proxy", "*proxyIDRingBuffer", "AggregateUpTo"}); f != nil {
-		checkAggregateMax(c, res, f)
+		checkAggregateMax(c, res, f, "O1.2")
 	}
 	if f := resolve(c, res, "O1.3", anchor{"proxy", "*proxyStreamSender", "recvAck"}); f != nil {
 		checkRecvAckDiscard(c, res, f)
@@ -309,8 +309,7 @@ func checkSentValue(c *Ctx, res *report.Result, f *ssa.Function, r *reduction, r
 	return
 }
 
-func checkAggregateMax(c *Ctx, res *report.Result, f *ssa.Function) {
-	rule := "O1.2"
+func checkAggregateMax(c *Ctx, res *report.Result, f *ssa.Function, rule string) {
 	var upd *ssa.MapUpdate
 	for _, b := range f.Blocks {
 		for _, ins := range b.Instrs {
@@ -554,6 +553,10 @@ func c03(c *Ctx) (*report.Result, error) {
 	res.RuleDoc["O3.2"] = "bounded: on every path to that Send the value is clamped to the source's last exclusive high watermark when one is known"
 	res.RuleDoc["O3.3"] = "lastSentMin is assigned the value that was sent, after a successful Send, and nowhere else except the per-incarnation reset"
 	res.RuleDoc["O3.4"] = "the keep-alive re-sends only the stored last ack object, which is only ever the request that was last sent"
+	res.RuleDoc["O3.6"] = "no phantom entry pins the minimum: an ackByTarget entry created at hand-over is keyed by the very target the tasks are handed to (the key that was tested for absence) - an entry under any other key belongs to a target that may never report, and the aggregated ack would stay below the final watermark for ever (same analysis as O1.8)"
+	if g := resolve(c, res, "O3.6", anchor{"proxy", "*proxyStreamReceiver", "recvReplicationMessages"}); g != nil {
+		checkSilentTargets(c, res, g, "O3.6")
+	}
 	res.RuleDoc["O3.5"] = "retry by repetition: every watermark-only batch received is fanned out again (no path from the empty-batch test to the next Recv skips the local or the remote broadcast): the per-target hand-off is a non-blocking send that may drop, so the source's periodic repeat is the only retry"
 	if g := resolve(c, res, "O3.5", anchor{"proxy", "*proxyStreamReceiver", "recvReplicationMessages"}); g != nil {
 		checkEveryWatermarkBroadcast(c, res, g, "O3.5")
